@@ -820,6 +820,55 @@ func simC03Laws(c *Ctx) {
 		observe(c, v, "C03:population")
 		pop = append(pop, mixed{d, v})
 	}
+	if c.G(3) == 0 {
+		// weakened twins: a wholly unknown value of a member's type, and a known value of the same shape in which one
+		// part is still of unknown type (it holds cty.DynamicVal there) - whatever Equals says of such a pair, it says
+		// the same in both directions
+		for k := 0; k < 3; k++ {
+			m := pop[c.G(len(pop))]
+			if m.d.T.HasDynamic() || m.d.T.HasCapsule() {
+				continue
+			}
+			u := &VDesc{T: m.d.T, St: StUnknown}
+			if c.G(2) == 0 {
+				u.Ref = genRef(c, m.d.T)
+				u.normalizeCollapsed()
+			}
+			pop = append(pop, mixed{u, u.Build()})
+			if near := c10NearMiss(c, m.d.T); near != nil {
+				d := genValue(c, near, 2, GenOpts{Null: true, MaxLen: 2})
+				if d.St == StKnown {
+					stripSetMarks(d)
+					if pan := catch(func() { pop = append(pop, mixed{d, d.Build()}) }); pan != nil {
+						continue // (typed members next to placeholder members that the constructors refuse)
+					}
+					c.Probe("c03.weakened-twin")
+				}
+			}
+		}
+	}
+	if c.G(4) == 0 {
+		// unknown numbers whose ranges touch, overlap in one point, or are disjoint
+		for k := 0; k < 4; k++ {
+			r := &RefDesc{NotNull: c.G(3) != 0}
+			b := NumDesc{Mode: NumParse, Text: []string{"4", "5", "6"}[c.G(3)]}
+			switch c.G(3) {
+			case 0:
+				r.HasLo, r.Lo, r.LoInc = true, b, c.G(2) == 0
+			case 1:
+				r.HasHi, r.Hi, r.HiInc = true, b, c.G(2) == 0
+			default:
+				r.HasLo, r.Lo, r.LoInc = true, b, c.G(2) == 0
+				r.HasHi, r.Hi, r.HiInc = true, NumDesc{Mode: NumParse, Text: "6"}, c.G(2) == 0
+			}
+			u := &VDesc{T: tNumber, St: StUnknown, Ref: r}
+			u.normalizeCollapsed()
+			if pan := catch(func() { pop = append(pop, mixed{u, u.Build()}) }); pan == nil {
+				c.Probe("c03.touching-ranges")
+			}
+		}
+	}
+	n = len(pop)
 	c.AddShape(fmt.Sprintf("laws base=%s n=%d", base, n))
 	for i := range pop {
 		if !pop[i].v.RawEquals(pop[i].v) {
